@@ -142,3 +142,19 @@ Definition ucheck (k : ucase) : bool :=
   | None, Some _ => ufunc_linear (u_f k) && negb (u_grad k)   (* linear: derivative is the operator itself *)
   | _, _ => false
   end.
+
+(* ---- functionals: value, gradient element, derivative(x)(d), class of derivative(x) ---- *)
+From Verif Require Import C06.FModel.
+Record fcase := {
+  f_e : fexpr (T:=Q); f_x : list Q; f_d : list Q;
+  f_val : Q;                 (* f(x) *)
+  f_grad : list Q;           (* f.gradient(x) *)
+  f_dd : Q;                  (* f.derivative(x)(d) *)
+  f_inner : bool }.          (* f.derivative(x) is an InnerProductOperator with vector gradient(x) *)
+Definition fcheck (k : fcase) : bool :=
+  let e := f_e k in let x := f_x k in
+  fwt e && Nat.eqb (length x) (fdim e) && Nat.eqb (length (f_d k)) (fdim e)
+  && qc (f_val k) (feval Qsqrt e x)
+  && qsc (f_grad k) (fgrad Qsqrt e x)
+  && qc (f_dd k) (dot (f_d k) (fgrad Qsqrt e x))
+  && f_inner k.
